@@ -265,7 +265,8 @@ class MPI(long):
         if self == 0:
             # RFC 4880 3.2: the value zero has a bit count of zero and no magnitude octets
             return MPIs.int_to_bytes(0, 2)
-        return MPIs.int_to_bytes(self.bit_length(), 2) + MPIs.int_to_bytes(self, self.byte_length())
+        # the bit count is a two-octet scalar: an integer of more than 65535 bits is not an MPI
+        return MPIs.int_to_fixed(self.bit_length(), 2) + MPIs.int_to_bytes(self, self.byte_length())
 
     def __len__(self):
         return self.byte_length() + 2
